@@ -7,7 +7,8 @@
    the request to the path object n as a describer / reader / publisher. All theorems hold for every oracle, every
    configuration history and every request. *)
 From Coq Require Import List ZArith Bool String.
-Require Import MTX.Model.C14_PathConf MTX.Model.C03_Auth MTX.Proofs.C03_Auth MTX.Proofs.C03_E2E MTX.Proofs.C03_Flows MTXGen.C03_Flows.
+Require Import MTX.Model.C14_PathConf MTX.Model.C03_Auth MTX.Model.C03_Origin MTX.Proofs.C03_Auth MTX.Proofs.C03_E2E
+               MTX.Proofs.C03_Origin MTX.Proofs.C03_Flows MTXGen.C03_Flows.
 Import ListNotations.
 Local Open Scope Z_scope.
 
@@ -131,6 +132,108 @@ Theorem C03_table_covers :
   In ("internal/servers/rtmp/conn.go:runPublish:AddPublisher"%string, FTwoStep KPublisher true true true true) sites.
 Proof. exact table_covers. Qed.
 Print Assumptions C03_table_covers.
+
+(* ---- whose address the manager is asked about (Model/C03_Origin.v) ----------------------------------------------
+
+   G = MTX.Model.C43_Hls (gin's ClientIP, networks). A wire request w carries the transport peer, the forwarding headers
+   of a HTTP request and the source address of a PROXY protocol header. `attributable car tr parse w who`: ground truth -
+   who is the host the request comes from: the peer if it is outside the trusted networks tr (whatever it sends); the
+   client at the far end of ANY honest chain of trusted proxies each appending its peer to X-Forwarded-For (the client
+   itself free to send any forged list first); a trusted proxy's X-Real-Ip / PROXY header; a trusted proxy itself when
+   it forwards nothing. `site_ip car src tr parse other w`: the address a call site hands to the path manager when it
+   reads it from source src. For every trusted list, parser oracle, request and carrier: a site that uses the source
+   its carrier demands (ClientIP on HTTP, the connection's RemoteAddr elsewhere) hands over the ORIGINATOR's address. *)
+Theorem C03_site_ip_origin :
+  forall car src tr parse other w who,
+  ip_ok car src = true -> attributable car tr parse w who -> site_ip car src tr parse other w = who.
+Proof. exact site_ip_origin. Qed.
+Print Assumptions C03_site_ip_origin.
+
+(* ... so that a well-formed flow at such a site attaches only what the manager admitted for the flow's credentials and
+   the ORIGINATOR's address (any oracle, configuration history, reloads, proxies, headers) *)
+Theorem C03_origin_flow_sound :
+  forall (Cr : Type) (m : str -> str -> option (list str)) (auth : bool -> str -> Cr -> list Z -> bool)
+         (f : flow) (e : env Cr (list Z)) cs0 rl k n car src tr parse other w who,
+  flow_ok f = true -> ip_ok car src = true ->
+  attributable car tr parse w who ->
+  e_ip1 e = site_ip car src tr parse other w ->
+  In (Attached k n) (flow_events m auth f e cs0 rl) ->
+  n = e_n1 e /\ auth (kind_publish k) n (e_cr1 e) who = true.
+Proof. exact @origin_flow_sound. Qed.
+Print Assumptions C03_origin_flow_sound.
+
+(* the requirement is needed: a HTTP site reading the TCP peer (http.Request.RemoteAddr) asks the manager about the
+   reverse proxy; a remote client the manager refuses becomes a reader through it (ClientIP gives the client) ... *)
+Theorem C03_origin_peer_source_refuted :
+  exists (e : env Z (list Z)) cs0 n,
+    ip_ok CHttp SPeer = false /\
+    attributable CHttp w_tr w_parse w_via w_R /\
+    e_ip1 e = site_ip CHttp SPeer w_tr w_parse [] w_via /\
+    flow_ok (FSingle KReader false false) = true /\
+    In (Attached KReader n) (flow_events w_m_none w_auth_P (FSingle KReader false false) e cs0 []) /\
+    w_auth_P false n (e_cr1 e) w_R = false /\
+    site_ip CHttp SClient w_tr w_parse [] w_via = w_R.
+Proof. exact origin_peer_source_refuted. Qed.
+Print Assumptions C03_origin_peer_source_refuted.
+
+(* ... a gin engine on which SetTrustedProxies was not called believes a forged X-Forwarded-For of any peer (with the
+   configured empty list it does not) ... *)
+Theorem C03_origin_trust_all_refuted :
+  attributable CHttp [] w_parse w_forged w_R /\
+  G.client_ip (gin_engine gin_trust_all) w_parse (w_net w_forged) = w_P /\
+  G.client_ip (gin_engine []) w_parse (w_net w_forged) = w_R.
+Proof. exact origin_trust_all_refuted. Qed.
+Print Assumptions C03_origin_trust_all_refuted.
+
+(* ... and so would a PROXY protocol listener that used the header of every peer *)
+Theorem C03_origin_pp_use_all_refuted :
+  attributable CTcp w_tr w_parse w_forged_pp w_R /\
+  pp_remote_use_all (w_net w_forged_pp) (w_pp w_forged_pp) = w_P /\
+  site_ip CTcp SPeer w_tr w_parse [] w_forged_pp = w_R.
+Proof. exact origin_pp_use_all_refuted. Qed.
+Print Assumptions C03_origin_pp_use_all_refuted.
+
+(* The tie to the servers: the generated table `ident_sites` gives, for the authenticating call of every site (the
+   FindPathConf of a two-step flow, `first_steps`), the carrier and the expression that supplies AccessRequest.IP
+   (tools/gen/authflows). Every non-exempt site uses the source its carrier demands, every row does, and the carriers
+   are the expected ones per server (HLS, WebRTC, MoQ pages: HTTP; RTSP, RTMP: TCP with PROXY listener; SRT, MoQ
+   sessions: plain connection). *)
+Theorem C03_identity_sites :
+  forallb ident_site_ok sites = true /\
+  forallb (fun x => ip_ok (fst (snd x)) (snd (snd x))) ident_sites = true /\
+  forallb carrier_as_expected ident_sites = true.
+Proof. exact ident_ok. Qed.
+Print Assumptions C03_identity_sites.
+
+(* hence, for every non-exempt call site of the current source and every wire request feeding its authenticating call: *)
+Theorem C03_servers_origin_sound :
+  forall (Cr : Type) (m : str -> str -> option (list str)) (auth : bool -> str -> Cr -> list Z -> bool)
+         site f car src (e : env Cr (list Z)) cs0 rl k n tr parse other w who,
+  In (site, f) sites -> ~ In site exempt ->
+  ident_of (site, f) = Some (car, src) ->
+  attributable car tr parse w who ->
+  e_ip1 e = site_ip car src tr parse other w ->
+  In (Attached k n) (flow_events m auth f e cs0 rl) ->
+  n = e_n1 e /\ auth (kind_publish k) n (e_cr1 e) who = true.
+Proof. exact servers_origin_sound. Qed.
+Print Assumptions C03_servers_origin_sound.
+
+Example C03_identity_total :
+  forallb (fun sf => mem_str (fst sf) exempt || match ident_of sf with Some _ => true | None => false end) sites = true.
+Proof. exact ident_total. Qed.
+
+(* non-vacuity of `attributable` / site_ip: forged list + two proxies, proxy on its own, X-Real-Ip, forged header from an
+   untrusted peer, PROXY header with and without a trusted list, plain connection *)
+Example C03_origin_examples :
+  let net p h := {| w_net := {| G.n_peer := Some p; G.n_hdrs := h |}; w_pp := None |} in
+  site_ip CHttp SClient w_tr2 w_parse2 [] (net (w_P, w_aP) [(G.h_xff, w_P ++ sep ++ w_R ++ sep ++ w_Q)]) = w_R /\
+  site_ip CHttp SClient w_tr2 w_parse2 [] (net (w_P, w_aP) []) = w_P /\
+  site_ip CHttp SClient w_tr2 w_parse2 [] (net (w_P, w_aP) [(G.h_xreal, w_R)]) = w_R /\
+  site_ip CHttp SClient w_tr2 w_parse2 [] w_forged = w_R /\
+  site_ip CTcp SPeer w_tr w_parse [] {| w_net := {| G.n_peer := Some (w_P, w_aP); G.n_hdrs := [] |}; w_pp := Some w_R |} = w_R /\
+  site_ip CTcp SPeer [] w_parse [] {| w_net := {| G.n_peer := Some (w_P, w_aP); G.n_hdrs := [] |}; w_pp := Some w_R |} = w_P /\
+  site_ip CDirect SPeer w_tr w_parse [] w_forged_pp = w_R.
+Proof. exact origin_examples. Qed.
 
 (* End to end (Check/C03.v, E2E cases): the admission the model predicts for an attempt of a real protocol client -
    the servers' flow run on the model with the oracle's verdict for the requested name - is never one the end-to-end
